@@ -103,6 +103,13 @@ def check(smi, table, r, want_accept=False, tolerant=False):
         x = _SF.encoder(smi, strict=True)
     except _SF.EncoderError as e:
         r.cov["encoder rejects under table (C06's business)"] += 1
+        if want_accept and table == RELAXED:
+            # acceptance is demanded only of forms that respect the table (C06 decides the others)
+            load = [0.0] * len(ain)
+            for (a, b), o in smiread.bonds_of(ain).items():
+                load[a] += o or 1
+                load[b] += o or 1
+            want_accept = all(load[i] + (ain[i].h or 0) <= RELAXED["?"] for i in range(len(ain)))
         if want_accept:
             r.violation("rejects-valid-form", case, "encoder(%r) raised EncoderError: %s" % (smi, str(e).strip()[:120]))
         return None
@@ -123,6 +130,23 @@ def check(smi, table, r, want_accept=False, tolerant=False):
     if v:
         r.violation(v[0], case, "%r -> %r -> %r: %s" % (smi, x, y, v[1]))
         return None
+    # the same SMILES through the encoder's other mode: whatever strict=False returns must round-trip as well
+    try:
+        x2 = _SF.encoder(smi, strict=False)
+    except Exception as e:
+        r.violation("nonstrict-rejects-what-strict-accepts", case, "%r: %r" % (smi, e))
+        return None
+    if x2 != x:
+        try:
+            y2 = _SF.decoder(x2)
+            aout2 = smiread.read_smiles(y2)
+        except Exception as e:
+            r.violation("output-unreadable", case, "strict=False: %r -> %r: %r" % (smi, x2, e))
+            return None
+        v = roundtrip.compare_skeleton(ain, aout2)
+        if v:
+            r.violation("strict=False:" + v[0], case, "%r -> %r -> %r: %s" % (smi, x2, y2, v[1]))
+            return None
     r.validated += 1
     r.nontrivial.add(h64(x))
     return x
